@@ -112,5 +112,7 @@ PROPS["C11"] = {
     ],
     "assumptions": [
         "well-formed = the library's own name rules (non-empty identifier, no leading atom prefix, no leading/trailing '-') restricted to characters that are atom_chars of the grammar (categories L, N, '_' , '-'); names with the K4 pattern are the known class K4",
+        "f64 Display prints the numbers of a well-formed value (range [0,1], C13) as non-empty strings of ASCII digits and '.' (hypothesis of C11_enum; checked on every float of every case)",
+        "'pest semantics' is the hand-written interpreter Model/Readme.v (pest is not available offline)",
     ],
 }
